@@ -40,7 +40,7 @@ func init() {
 		CaseTimeout: 120 * time.Second,
 		Run:         runC07,
 		Floors: func(tier string) map[string]int {
-			return map[string]int{"ops_judged": 1500, "refused_readonly": 300, "demotions_mid_tx": 10, "demotion_then_commit_refused": 8, "import_waiting_at_demotion": 8, "import_refused": 10,
+			return map[string]int{"ops_judged": 1500, "refused_readonly": 300, "demotions_mid_tx": 10, "write_refused_after_loss": 5, "demotion_then_commit_refused": 8, "import_waiting_at_demotion": 8, "import_refused": 10,
 				"state_connected": 5, "state_disconnected": 5, "state_never-connected": 5, "state_former-halt-holder": 5, "op_dbwrite": 50, "op_journal-create": 50, "op_wal-write": 30, "op_db-unlink": 30, "op_journal-unlink": 10}
 		},
 	})
@@ -509,8 +509,21 @@ func c07B(c *core.Case) {
 		c.Violate("C07/exit-in-rollback-mode", "Store.Exit was called for a rollback-journal transaction after authority loss (only the WAL commit step may exit)", detail)
 		return
 	}
-	if txErr != nil && !wal && !isReadOnlyErr(unwrapAll(txErr)) && !strings.Contains(txErr.Error(), "read only replica") {
-		c.Count("refused_with_other_error", 1)
+	// a page, journal or WAL write (or a journal creation) that is refused for lack
+	// of authority must be refused with the read-only permission error
+	switch w.lastStep {
+	case "journal-rec", "journal-hdr", "journal-create", "commit-write", "spill-write", "wal-hdr", "wal-frame", "wal-frame-hdr", "wal-frame-body":
+		if w.lastErr != nil {
+			c.Count("write_refused_after_loss", 1)
+			if drv.Errno(w.lastErr) != syscall.EACCES {
+				c.Violate("C07/not-readonly-error/"+w.lastStep, fmt.Sprintf("after the node lost its lease the %s step was refused with %v (errno %d) instead of the read-only permission error", w.lastStep, w.lastErr, drv.Errno(w.lastErr)), detail)
+				return
+			}
+		}
+	default:
+		if txErr != nil {
+			c.Count("refused_with_other_error", 1)
+		}
 	}
 	c.Count("demotion_then_commit_refused", 1)
 	c.Distinct(fmt.Sprintf("B/wal%v/%s/%s/%s/exit%v", wal, jmode, how, stepClass(lostBefore), len(P.Node.Exits()) > 0))
